@@ -395,6 +395,14 @@ func execute(tc *tcase) outcome {
 	var peer *wire.Reactive
 	if !tc.recv {
 		peer = wire.NewReactive(func(p *wire.Reactive, fresh []byte) []byte {
+			if p.Steps > 60 {
+				// at most 5 features per stream and 5 lists: the library is going
+				// round in circles; end the peer's stream so that the call returns
+				if o.problem == "" {
+					o.problem = "the library keeps negotiating: more than 60 exchanges for at most 5 features and 5 advertisements"
+				}
+				return nil
+			}
 			hdr := isHeader(fresh, tc.ws)
 			if pendingRestart {
 				// (I7) a feature asked for a restart: the next thing the library
